@@ -24,7 +24,8 @@ RULE = ("a case is one tracker process + 1-3 client processes and a seeded scrip
         "SIGKILLed at seeded positions, then end of input; the disk is compared with a ref-count model after every "
         "synchronised request and after the tracker exited; plus end-to-end runs (loky Parallel call with memmapped arguments, parent exiting or "
         "SIGKILLed during / between / after calls: the temp folder must vanish once parent and workers are gone); distinct_nontrivial counts distinct scripts with at least "
-        "one deletion and one malformed or unbalanced request")
+        "one deletion and one malformed or unbalanced request"
+        " Requests under the OTHER resource type than a path's own (stray MAYBE_UNLINK / UNREGISTER) are part of the malformed requests.")
 ASSUMPTIONS = [
     "synchronisation: a sentinel file registered and MAYBE_UNLINKed by the driver after a request disappears only after "
     "every earlier request was processed (FIFO pipe, sequential loop)",
